@@ -39,6 +39,8 @@ def Neutral (s : String) : Prop := ∀ st rest, scan st (brs s ++ rest) = scan s
 /-- the text contains none of the six characters -/
 def BrFree (s : String) : Prop := brs s = []
 
+instance (s : String) : Decidable (BrFree s) := inferInstanceAs (Decidable (brs s = []))
+
 theorem scan_filter_append (l rest : List Char) : ∀ st, scan st (l.filter isBr ++ rest) = scan st (l ++ rest) := by
   induction l with
   | nil => intro st; rfl
